@@ -28,7 +28,7 @@ func keepLog(l *gen.Log, e *reftable.LogExpirationConfig) bool {
 // RunC13: reflog expiry removes exactly the expired entries.
 func RunC13(c *Ctx) {
 	r := c.Rep
-	r.Rule = "case = one CompactAll(expiry) on a generated stack (0..6 tables, several log entries per ref at chosen times/update indices, log tombstones, refs) with each limit unset / below / equal to / inside / above the data range; expected = reference filter over the model view, refs untouched, kept entries byte-identical, through the same handle and a fresh one; distinct = (stack, expiry config); non-trivial = at least one entry expired and one survived, or a limit equals a data value"
+	r.Rule = "case = one CompactAll(expiry) on a generated stack (0..6 tables, several log entries per ref at chosen times/update indices, log tombstones, refs) with each limit unset / below / equal to / inside / above the data range; expected = reference filter over the model view, refs untouched, kept entries byte-identical, through the same handle and a fresh one; distinct = (stack, expiry config); non-trivial = at least one entry expired and one survived, or a limit equals a data value; round 2 in 60% of the cases: new log entries arrive through Add or NewAddition/Commit on the same handle and the same configuration is applied again (reference filter again)"
 	n := c.N(4000, 120000)
 	for idx := 0; idx < n; idx++ {
 		if !c.Mine(idx) {
